@@ -8,6 +8,7 @@ package main
 
 import (
 	"fmt"
+	"slices"
 	"time"
 )
 
@@ -56,7 +57,7 @@ type Explorer struct {
 func newExplorer(sc *Scenario, budget time.Duration) *Explorer {
 	return &Explorer{sc: sc, seen: map[[2]uint64]int16{}, foundKey: map[string]bool{},
 		res:      &Result{Scenario: sc.Name, Mode: sc.Mode, K: sc.K, Exhaustive: true, Stats: newStats(), Extra: map[string]int{}},
-		deadline: time.Now().Add(budget), stateCap: 60_000_000}
+		deadline: time.Now().Add(budget), stateCap: capFor(sc)}
 }
 
 func (x *Explorer) replay(path []Event) *World {
@@ -102,12 +103,105 @@ func (x *Explorer) run() *Result {
 	if x.sc.Mode != "kbound" {
 		budget = inf
 	}
-	w := newWorld(x.sc, x.res.Stats)
-	if !x.check(w, nil) {
-		x.dfs(nil, w, budget)
+	if x.sc.Mode == "e2" || x.sc.Mode == "bfs" {
+		x.bfs()
+	} else {
+		w := newWorld(x.sc, x.res.Stats)
+		if !x.check(w, nil) {
+			x.dfs(nil, w, budget)
+		}
 	}
 	x.res.WallS = time.Since(start).Seconds()
 	return x.res
+}
+
+// cev is a compact event (frontier paths of the breadth-first modes).
+type cev struct {
+	k    uint8
+	n    uint8
+	a, b int32
+	p    H
+}
+
+var evKinds = []string{"deliver", "dup", "timeout", "stale", "reset", "tx", "newtx", "sync", "perm", "restart", "byz", "inj", "skip"}
+
+func compact(e Event) cev {
+	return cev{uint8(slices.Index(evKinds, e.K)), uint8(e.N), int32(e.A), int32(e.B), e.P}
+}
+func (c cev) event() Event { return Event{K: evKinds[c.k], N: int(c.n), A: int(c.a), B: int(c.b), P: c.p} }
+
+func expand(path []cev) []Event {
+	r := make([]Event, len(path))
+	for i, c := range path {
+		r[i] = c.event()
+	}
+	return r
+}
+
+// bfs: breadth-first search with state deduplication; successors by replay on fresh instances.
+func (x *Explorer) bfs() {
+	root := newWorld(x.sc, x.res.Stats)
+	if x.check(root, nil) {
+		return
+	}
+	x.seen[root.key()] = 1
+	x.res.States = 1
+	if x.onState != nil {
+		x.onState(root, nil)
+	}
+	frontier := [][]cev{nil}
+	maxDepth := x.sc.MaxDepth
+	for depth := 0; len(frontier) > 0; depth++ {
+		if depth >= maxDepth {
+			x.res.Exhaustive = false
+			x.res.Extra["frontier_at_depth_cap"] = len(frontier)
+			break
+		}
+		var next [][]cev
+		for fi, path := range frontier {
+			if fi&255 == 0 && (time.Now().After(x.deadline) || x.res.States >= x.stateCap) {
+				x.res.Exhaustive = false
+				x.res.Truncated++
+				x.res.Extra["frontier_left_at_cap"] = len(frontier) - fi
+				x.res.Extra["depth_completed"] = depth
+				x.res.MaxDepth = depth
+				return
+			}
+			evp := expand(path)
+			w := x.replay(evp)
+			evs := w.enabled()
+			if len(evs) == 0 {
+				x.res.Terminal++
+				continue
+			}
+			for i, e := range evs {
+				w2 := w
+				if i < len(evs)-1 {
+					w2 = x.replay(evp)
+				}
+				w2.apply(e)
+				x.res.Transitions++
+				np := append(append(make([]cev, 0, len(path)+1), path...), compact(e))
+				if len(w2.viol) > 0 {
+					x.check(w2, expand(np))
+					continue
+				}
+				k := w2.key()
+				if _, ok := x.seen[k]; ok {
+					continue
+				}
+				x.seen[k] = 1
+				x.res.States++
+				if x.onState != nil {
+					x.onState(w2, expand(np))
+				}
+				next = append(next, np)
+			}
+		}
+		x.res.MaxDepth = depth + 1
+		x.res.Extra["depth_completed"] = depth + 1
+		frontier = next
+	}
 }
 
 func (x *Explorer) defaultRun() ([2]uint64, []string) {
@@ -234,4 +328,11 @@ func confirm(f *Found, times int) (int, []string) {
 		}
 	}
 	return ok, trace
+}
+
+func capFor(sc *Scenario) int {
+	if sc.E2 != nil && sc.E2.StateCap > 0 {
+		return sc.E2.StateCap
+	}
+	return 60_000_000
 }
